@@ -140,6 +140,26 @@ fn main() {
             }
             0
         }
+        Some("c15readings") => {
+            // for a saved C15 case: the verdict of the reference readings for both spellings, per input vector
+            let v = report::read_json(std::path::Path::new(&pos[0])).unwrap();
+            let case: checks::c15::Case = serde_json::from_value(v["case"].clone()).unwrap();
+            let p = &case.sem.prog;
+            let (n, _) = checks::c15::rewrite(p, case.rw, None);
+            let q = checks::c15::rewrite(p, case.rw, Some(case.site % n.max(1))).1.unwrap();
+            let qcase = sem::SemCase { prog: q.clone(), ..case.sem.clone() };
+            let a = sem::build_side(&case.sem.source(), &case.sem.opts(), case.sem.layout_shuffle);
+            let b = sem::build_side(&qcase.source(), &case.sem.opts(), case.sem.layout_shuffle);
+            if let (sem::Side::Ok(_, ia), sem::Side::Ok(_, ib)) = (a, b) {
+                for (i, init) in case.sem.inits.iter().enumerate() {
+                    let va = refc::run_all_ex(p, &ia.layout, init, sem::REFC_STEPS, &refc::READINGS, case.sem.signed_chars, false);
+                    let vb = refc::run_all_ex(&q, &ib.layout, init, sem::REFC_STEPS, &refc::READINGS, case.sem.signed_chars, false);
+                    let short = |v: &refc::Verdict| match v { refc::Verdict::Agreed(_) => "Agreed".to_string(), o => format!("{:?}", o).chars().take(80).collect() };
+                    writeln!(out, "vector {}: original {} | rewritten {}", i, short(&va), short(&vb)).ok();
+                }
+            }
+            0
+        }
         Some("c03text") => {
             let v = report::read_json(std::path::Path::new(&pos[0])).unwrap();
             let sk: checks::c03::Skeleton = serde_json::from_value(v["skeleton"].clone()).unwrap();
